@@ -88,6 +88,10 @@ func (t *TransactionManager) Cancel(ctx context.Context, id string) error {
 
 	_, err := t.rollbacker.TransactionRollback(ctx, rollbacktransAction, false)
 	if err != nil {
+		// the rollback timer of the transaction is stopped at this point. Keeping the transaction registered
+		// would leave the datastore locked with nothing left to release it, so the slot is freed here as well,
+		// the same way the timer driven rollback does.
+		t.transaction = nil
 		return err
 	}
 	return t.CleanupTransaction(id)
